@@ -111,6 +111,11 @@ class BaseG2Ciphersuite(ABC):
 
     @staticmethod
     def KeyValidate(PK: BLSPubkey) -> bool:
+        # A public key is exactly 48 bytes; longer strings must not be reduced to
+        # their low 381 bits by the integer conversion below.
+        if not BaseG2Ciphersuite._is_valid_pubkey(PK):
+            return False
+
         try:
             pubkey_point = pubkey_to_G1(PK)
         except (ValidationError, ValueError, AssertionError):
